@@ -55,7 +55,7 @@ fn ints() -> Vec<FieldValue> {
     vk::GRID_I64.iter().map(|x| FieldValue::Int64(*x)).chain(vk::GRID_U64.iter().map(|x| FieldValue::Uint64(*x))).collect()
 }
 
-// @grid c09_grid_fold_count_arguments tier=quick bound="[+ seeded random accepted documents, VERIF_SEED] fold-count filters =, !=, <, <=, >, >=, one_of, not_one_of with 17 boundary integer arguments in both representations / 5 lists; count output and count tag variants"
+// @grid c09_grid_fold_count_arguments tier=quick bound="fold-count filters =, !=, <, <=, >, >=, one_of, not_one_of with 17 boundary integer arguments in both representations / 5 lists; count output and count tag variants"
 // @ob accepted fold-count queries with arguments of any sign/magnitude (negative, zero, > i64::MAX, empty list) run without panicking
 pub(crate) fn c09_grid_fold_count_arguments() {
     let mut n = 0u64; let mut failures = BTreeSet::new();
@@ -73,7 +73,7 @@ pub(crate) fn c09_grid_fold_count_arguments() {
     finish("c09_grid_fold_count_arguments", n, failures);
 }
 
-// @grid c09_grid_scalar_filter_arguments tier=quick bound="[+ seeded random accepted documents, VERIF_SEED] every scalar filter operator on Int / String properties with boundary arguments, null where accepted, tags from optional and non-optional scopes"
+// @grid c09_grid_scalar_filter_arguments tier=quick bound="every scalar filter operator on Int / String properties with boundary arguments, null where accepted, tags from optional and non-optional scopes"
 // @ob accepted scalar-filter queries run without panicking for every accepted argument value
 pub(crate) fn c09_grid_scalar_filter_arguments() {
     let mut n = 0u64; let mut failures = BTreeSet::new();
@@ -99,7 +99,7 @@ pub(crate) fn c09_grid_scalar_filter_arguments() {
     finish("c09_grid_scalar_filter_arguments", n, failures);
 }
 
-// @grid c09_grid_repeated_tag_in_fold tier=quick bound="[+ seeded random accepted documents, VERIF_SEED] a tag defined outside a fold and used 1, 2 or 3 times inside it (same vertex / nested vertex / nested fold)"
+// @grid c09_grid_repeated_tag_in_fold tier=quick bound="a tag defined outside a fold and used 1, 2 or 3 times inside it (same vertex / nested vertex / nested fold)"
 // @ob a query that uses the same tag more than once inside a @fold is accepted by the frontend and runs without panicking
 pub(crate) fn c09_grid_repeated_tag_in_fold() {
     let mut n = 0u64; let mut failures = BTreeSet::new();
@@ -114,7 +114,7 @@ pub(crate) fn c09_grid_repeated_tag_in_fold() {
     finish("c09_grid_repeated_tag_in_fold", n, failures);
 }
 
-// @grid c09_grid_ordering_on_lists tier=quick bound="[+ seeded random accepted documents, VERIF_SEED] ordering filters <, <=, >, >= on the list-typed property vowelsInName with list arguments and list tags"
+// @grid c09_grid_ordering_on_lists tier=quick bound="ordering filters <, <=, >, >= on the list-typed property vowelsInName with list arguments and list tags"
 // @ob an ordering filter whose operands are list-typed is either rejected by the frontend or runs without panicking
 pub(crate) fn c09_grid_ordering_on_lists() {
     let mut n = 0u64; let mut failures = BTreeSet::new();
@@ -130,7 +130,7 @@ pub(crate) fn c09_grid_ordering_on_lists() {
     finish("c09_grid_ordering_on_lists", n, failures);
 }
 
-// @grid c09_grid_invalid_regex tier=quick bound="[+ seeded random accepted documents, VERIF_SEED] regex / not_regex filters with valid and invalid pattern strings as variable and as tag"
+// @grid c09_grid_invalid_regex tier=quick bound="regex / not_regex filters with valid and invalid pattern strings as variable and as tag"
 // @ob a regex filter whose (accepted) argument is not a valid regular expression runs without panicking
 pub(crate) fn c09_grid_invalid_regex() {
     let mut n = 0u64; let mut failures = BTreeSet::new();
@@ -146,7 +146,7 @@ pub(crate) fn c09_grid_invalid_regex() {
     finish("c09_grid_invalid_regex", n, failures);
 }
 
-// @grid c09_grid_fold_count_in_optional tier=quick bound="[+ seeded random accepted documents, VERIF_SEED] fold-count filters / outputs / tags on a @fold nested under an @optional edge that is missing for some rows; 8 operators x 4 argument values, variable and tag arguments"
+// @grid c09_grid_fold_count_in_optional tier=quick bound="fold-count filters / outputs / tags on a @fold nested under an @optional edge that is missing for some rows; 8 operators x 4 argument values, variable and tag arguments"
 // @ob an accepted query whose count-filtered @fold sits inside an @optional scope runs without panicking, also for the rows whose optional edge does not exist
 pub(crate) fn c09_grid_fold_count_in_optional() {
     let mut n = 0u64; let mut failures = BTreeSet::new();
@@ -170,7 +170,7 @@ pub(crate) fn c09_grid_fold_count_in_optional() {
     finish("c09_grid_fold_count_in_optional", n, failures);
 }
 
-// @grid c09_grid_nested_scopes tier=quick bound="[+ seeded random accepted documents, VERIF_SEED] every nesting of up to 3 scopes from {plain edge, @optional, @fold, @recurse(depth: 2)} along predecessor/successor/multiple edges from numbers 0..3 (the predecessor of 0 is missing), with outputs, a filter and a tag used in the innermost scope; plus the extra corpus shapes"
+// @grid c09_grid_nested_scopes tier=quick bound="[+ 400 seeded random accepted documents and 1500 seeded random documents of which a third is ill-typed, VERIF_SEED] every nesting of up to 3 scopes from {plain edge, @optional, @fold, @recurse(depth: 2)} along predecessor/successor/multiple edges from numbers 0..3 (the predecessor of 0 is missing), with outputs, a filter and a tag used in the innermost scope; plus the extra corpus shapes"
 // @ob every accepted combination of nested @optional / @fold / @recurse scopes runs without panicking, also for rows whose optional edges do not exist
 pub(crate) fn c09_grid_nested_scopes() {
     let mut n = 0u64; let mut failures = BTreeSet::new();
@@ -183,9 +183,14 @@ pub(crate) fn c09_grid_nested_scopes() {
         expect_no_panic(&format!("{e1} {d1} / {e2} {d2} / {e3} {d3}"), &q, &[], false, &mut failures); n += 1;
     } } } }
     for case in crate::verif_corpus::corpus_with_random(400, 9) {
-        if case.schema_name != "numbers" || !case.name.starts_with("x_") { continue; }
+        if case.schema_name != "numbers" || !(case.name.starts_with("x_") || case.name.starts_with("rnd_")) { continue; }
         let args: Vec<(&str, FieldValue)> = case.arguments.iter().map(|(k, v)| (k.as_ref(), v.clone())).collect();
         expect_no_panic(&case.name, &case.query, &args, true, &mut failures); n += 1;
+    }
+    // seeded random documents of which a third is deliberately ill-typed: whatever the frontend accepts must execute without panicking
+    for (i, d) in crate::verif_random::documents(1500, 90, 35).into_iter().enumerate() {
+        let args: Vec<(&str, FieldValue)> = d.arguments.iter().map(|(k, v)| (k.as_ref(), v.clone())).collect();
+        expect_no_panic(&format!("sloppy_{i} {}", d.query), &d.query, &args, false, &mut failures); n += 1;
     }
     finish("c09_grid_nested_scopes", n, failures);
 }
